@@ -296,17 +296,19 @@ def run(case):
                         bad = ('c18.embed_bond_length', f'{txt} [{case["variant"]}]: bonded atoms {a} ({ea}) and {b} ({eb}) are {dist:.2f} A apart = {ratio:.2f} x the sum of their covalent radii')
                         break
             if bad is None and e2e:
+                # a bead's own atoms and their weights are read off the MOLECULE (fragid and weight of each atom), not off
+                # the fragment graph the library keeps on the bead
                 for k in cg.nodes:
-                    gr = cg.nodes[k].get('graph')
-                    if gr is None or not len(gr):
+                    own = [n for n in aa.nodes if k in (aa.nodes[n].get('fragid') or [])]
+                    if not own:
                         continue
-                    w = {n: gr.nodes[n].get('weight', 1) for n in gr.nodes}
+                    w = {n: aa.nodes[n].get('weight', 1) for n in own}
                     if sum(w.values()) <= 0:
                         continue
-                    want = sum(w[n] * np.asarray(aa.nodes[n]['position'], dtype=float) for n in gr.nodes) / sum(w.values())
+                    want = sum(w[n] * np.asarray(aa.nodes[n]['position'], dtype=float) for n in own) / sum(w.values())
                     got = cg.nodes[k].get('position')
                     if got is None or not np.allclose(np.asarray(got, dtype=float), want, atol=1e-8, rtol=0):
-                        bad = ('c18.bead_not_weighted_mean', f'{txt} [embed + forward map in one call]: bead {k} at {got}, weighted mean of its embedded atoms {want.tolist()}')
+                        bad = ('c18.bead_not_weighted_mean', f'{txt} [embed + forward map in one call]: bead {k} at {got}, weighted mean of its embedded atoms {want.tolist()} (atoms {own}, weights {[w[n] for n in own]})')
                         break
                 counters['e2e_embed_and_map'] = 1
             if bad:
